@@ -34,8 +34,9 @@ _program_cls = None
 
 
 def _watched_program():
-    """Program subclass whose size fix-point loop is observed: two identical consecutive states with some
-    size still open prove that the loop can never exit (its body is a deterministic function of that state)."""
+    """Program subclass whose size fix-point loop is observed: 200 consecutive passes that leave every statement's
+    (fixed, size, max size) unchanged while some size is still open are taken as non-termination (the 20 s
+    watchdog is the backstop for loops of any other shape)."""
     global _program_cls
     if _program_cls is None:
         from cocoasm.program import Program
@@ -46,7 +47,13 @@ def _watched_program():
                 if not done:
                     snap = tuple((s.fixed_size, s.code_pkg.size, s.code_pkg.max_size) for s in self.statements)
                     if getattr(self, "_verif_snap", None) == snap:
-                        raise _NoProgress("size fix-point loop makes no progress")
+                        # an implementation may legitimately need a pass without progress before it settles the
+                        # remaining sizes; only a long run of identical states is taken as "never terminates"
+                        self._verif_same = getattr(self, "_verif_same", 0) + 1
+                        if self._verif_same >= 200:
+                            raise _NoProgress("size fix-point loop makes no progress (200 identical passes)")
+                    else:
+                        self._verif_same = 0
                     self._verif_snap = snap
                 return done
 
